@@ -50,7 +50,7 @@ func c05GenHandlerSeq(r *verifh.Rng) []verifh.Section {
 
 func c05GenHandlerConc(r *verifh.Rng) []verifh.Section {
 	var secs []verifh.Section
-	for i := 0; i < verifh.Scale(5, 150); i++ {
+	for i := 0; i < verifh.Scale(5, 70); i++ {
 		n := r.Pick(1, 2, 3, r.Range(1, 8))
 		g := r.Pick(n, n+1, 2*n+1, r.Range(2, 12))
 		secs = append(secs, verifh.Section{Cfg: fmt.Sprintf("kind=maxconns mode=conc n=%d", n), Ops: []string{
